@@ -21,6 +21,13 @@ def corpus():
             if k.startswith("reg_"): _CORPUS[k[4:]] = regdsl.decode(bytes.fromhex(v))
     return _CORPUS
 
+_POLKA = []
+def polkadot():
+    """the registry of /repo/artifacts/polkadot_metadata.scale (real chain metadata), decoded through the replay binary"""
+    if not _POLKA:
+        r = run_replay([{"op": "polkadot"}])[0]
+        _POLKA.append(regdsl.decode(bytes.fromhex(r["reg"])))
+    return _POLKA[0]
 def syn_path(s): return parse_kind("Path", to_engine_tokens(tokenize(s)))
 def syn_type_path(s): return parse_kind("TypePath", to_engine_tokens(tokenize(s)))
 
